@@ -108,7 +108,7 @@ func runWorker(prop, scen, tier string, seed int64, tape []int, gomaxprocs int, 
 	defer cancel()
 	cmd := exec.CommandContext(ctx, workerBin, "-test.run", "^TestRun$", "-test.timeout", "0")
 	env := append(os.Environ(), "VERIF_PROP="+scen, "VERIF_TIER="+tier, "VERIF_SEED="+strconv.FormatInt(seed, 10),
-		"GODEBUG=randseednop=0", "GOMAXPROCS="+strconv.Itoa(gomaxprocs), "GOTRACEBACK=all")
+		"GODEBUG=randseednop=0,asyncpreemptoff=1", "GOMAXPROCS="+strconv.Itoa(gomaxprocs), "GOTRACEBACK=all")
 	var rfPath string
 	if tape != nil {
 		f, err := os.CreateTemp("", "verif-replay-*.json")
@@ -123,11 +123,20 @@ func runWorker(prop, scen, tier string, seed int64, tape []int, gomaxprocs int, 
 		defer os.Remove(rfPath)
 		env = append(env, "VERIF_REPLAY="+rfPath)
 	}
+	jf, err := os.CreateTemp(journalDir(), "verif-journal-*")
+	if err != nil {
+		fmt.Fprintln(os.Stderr, err)
+		os.Exit(2)
+	}
+	jpath := jf.Name()
+	_ = jf.Close()
+	defer os.Remove(jpath)
+	env = append(env, "VERIF_JOURNAL="+jpath)
 	cmd.Env = env
 	var stdout, stderr bytes.Buffer
 	cmd.Stdout, cmd.Stderr = &stdout, &stderr
 	t0 := time.Now()
-	err := cmd.Run()
+	err = cmd.Run()
 	out := &runOut{seed: seed, wall: time.Since(t0), scen: scen}
 	run := &oracle.Run{Prop: prop, Stderr: stderr.String()}
 	if ctx.Err() != nil {
@@ -140,7 +149,8 @@ func runWorker(prop, scen, tier string, seed int64, tape []int, gomaxprocs int, 
 			run.ExitCode = 3
 		}
 	}
-	evs, _ := journal.Read(&stdout)
+	jb, _ := journal.ReadMapFile(jpath)
+	evs, _ := journal.Read(bytes.NewReader(jb))
 	run.Evs = evs
 	out.run = run
 	for i := range evs {
@@ -151,6 +161,14 @@ func runWorker(prop, scen, tier string, seed int64, tape []int, gomaxprocs int, 
 	out.digest = journal.Digest(evs)
 	out.res = oracle.Check(run)
 	return out
+}
+
+// journalDir: the workers' journals are memory-mapped files; a RAM-backed directory when there is one.
+func journalDir() string {
+	if st, err := os.Stat("/dev/shm"); err == nil && st.IsDir() {
+		return "/dev/shm"
+	}
+	return os.TempDir()
 }
 
 func deriveSeed(base int64, prop string, i int) int64 {
